@@ -181,8 +181,15 @@ class Interp(object):
             return UNK
         if k in P.CALL_KINDS:
             nm = st.get("callee", {}).get("q", "").split("::")[-1]
-            if nm in self.pure_syms and not st.get("args"):
-                return ("s", fn.text(i), 0)
+            if nm in self.pure_syms:
+                sym = fn.text(i)
+                r = type_range(st.get("tk"))
+                cap = getattr(self, "sym_cap", None)
+                if r and cap:
+                    r = (max(r[0], cap[0]), min(r[1], cap[1]))
+                if r:
+                    path.pc.setdefault(sym, r)
+                return ("s", sym, 0)
             return UNK
         return UNK
 
@@ -250,6 +257,21 @@ class Interp(object):
         v = self._point(self.ev(fn, i, path), path)
         if is_c(v):
             return bool(v[1]) == pol
+        if is_s(v) and len(v) == 3:
+            # truthiness of a symbol: non-zero / zero
+            lo, hi = path.rng(v[1])
+            k = -v[2]
+            if pol:
+                if lo == k:
+                    lo += 1
+                if hi == k:
+                    hi -= 1
+            else:
+                lo, hi = max(lo, k), min(hi, k)
+            if lo > hi:
+                return False
+            path.pc[v[1]] = (lo, hi)
+            return True
         if st["k"] == "BinaryOperator" and st["op"] in ("==", "!=", "<", ">", "<=", ">="):
             a = self._point(self.ev(fn, st["c"][0], path), path)
             b = self._point(self.ev(fn, st["c"][1], path), path)
@@ -409,6 +431,10 @@ class Interp(object):
                                 # a fresh symbol named after the variable
                                 v = ("s", d["n"], 0)
                                 r = type_range(d.get("tk"))
+                                cap = getattr(self, "sym_cap", None)
+                                if r and cap and fn.s(fn.strip(d["init"], casts=True))["k"] in P.CALL_KINDS and \
+                                        fn.s(fn.strip(d["init"], casts=True)).get("callee", {}).get("q", "").split("::")[-1] in self.pure_syms:
+                                    r = (max(r[0], cap[0]), min(r[1], cap[1]))
                                 if r:
                                     p.pc.setdefault(d["n"], r)
                             p.env[d["d"]] = v
@@ -460,12 +486,18 @@ class Interp(object):
                         callee = self.prog.fns[st["callee"]["key"]]
                         env2 = {}
                         for prm, a in zip(callee.params, st.get("args", [])):
-                            env2[prm["d"]] = self._point(self.ev(fn, a, p), p)
+                            av = self._point(self.ev(fn, a, p), p)
+                            if av == UNK and type_range(prm.get("tk")):
+                                av = ("s", prm["n"], 0)
+                                p.pc.setdefault(prm["n"], type_range(prm["tk"]))
+                            env2[prm["d"]] = av
                         for mk in list(p.env):
                             if isinstance(mk, str):
                                 env2[mk] = p.env[mk]
                         sub = Interp(self.prog, self.emit, self.inline, self.pure_syms, self.max_paths, self.watch_members)
                         sub.n_paths = self.n_paths
+                        if hasattr(self, "sym_cap"):
+                            sub.sym_cap = self.sym_cap
                         subpaths = sub.run(callee, env2, dict(p.pc), depth + 1)
                         self.n_paths = sub.n_paths
                         for sp in subpaths:
